@@ -44,4 +44,33 @@ TEXTS = {
                     "of interior-mutable state on the &self path (R10.e). Found defects D2 and D3 (now fixed). Equality with a "
                     "rebuilt store as a runtime value is not decided.",
             "note": NOTE},
+    "C11": {"technique": "static analysis: constant tables bound to their consumer by data-flow, cross-checked entry by entry against Unicode (unicodedata); builder-chain order",
+            "text": "Decides table and order clauses for all six languages: composition entries are NFD pair -> NFC letter, every "
+                    "reducible letter is composable, case closure, reduction fixpoint, keys fit the normalisation window, "
+                    "normalize first and lower before pos/stem in both tokenisers. Interaction with the stemmers is not decided.",
+            "note": NOTE + " Oracle: Python unicodedata."},
+    "C15": {"technique": "static analysis: builder-chain extraction from MIR, sibling agreement of the two tokenisers, post-dominance of renumber loops, assignment grouping",
+            "text": "Decides pipeline-shape clauses: stage order, query/record agreement incl. split/strip class sets, renumber after "
+                    "every mutation of the word list, drop-empty after strip, classes resized to chars.len(), normalize updates "
+                    "source/chars/slice together, reductions never shrink with padding = len(norm)-len(orig), fin/slice formulas "
+                    "of split and strip. Stem range and scanning loops are not decided.",
+            "note": NOTE},
+    "C17": {"technique": "static analysis: event-order/dominance rule on the two buffers, abstract walk of the empty-case switches, reset-before-read",
+            "text": "Decides structural clauses: both buffers are whole-overwritten from the two different inputs, sorted and "
+                    "de-duplicated before the merge on every path; empty cases return 1.0 / 0.0; the merge returns a ratio of "
+                    "two counters including both tails; buffers are reset before use. The two-pointer arithmetic is not decided.",
+            "note": NOTE},
+    "C18": {"technique": "static analysis: iterator-chain extraction, comparator structure, sort/dedup dominance, counter reset/resize and +1 rules, who-may-call",
+            "text": "Decides structural clauses: count>0 filter before the cap, cap = size*10 ordered by count descending, the "
+                    "shared gram generator sorts+dedups, positions are enumerate indices, counters cleared and resized to the "
+                    "record count which grows by one per add, only Store::add feeds the index after record.ix := next_ix. "
+                    "Gram-set contents are not decided.",
+            "note": NOTE},
+    "C20": {"technique": "static analysis: cross-body provenance through closure captures and thread-local registries, pairing and who-may-write rules",
+            "text": "Decides structural clauses: both registries are updated together under the caller's id, every API function "
+                    "addresses all registries with its own first parameter, the result buffer is cleared before refill, written "
+                    "only by the search runner, and filled with store X's hits for the query tokenised in X's language; API "
+                    "functions forward parameters positionally. Per-id equality with a stand-alone store as a runtime value is "
+                    "not decided.",
+            "note": NOTE},
 }
